@@ -29,6 +29,9 @@ theorem not_not_true {b : Bool} (h : ¬ (!b) = true) : b = true := by
   · exact absurd rfl h
   · rfl
 
+theorem isdigits_single' (c : Nat) : isDigitsB [c] = isAsciiDigit c := by
+  simp [isDigitsB]
+
 /-! ## comprehensions over `zip(weights, number)` on a digit string -/
 
 /-- `[body(w, n) for w, n in zip(ws, p)]` whose body succeeds on every digit character -/
